@@ -415,9 +415,39 @@ PROBE_STRINGS = ["yesterday", "2 days ago", "02-03-2016", "01/02/2020", "02-03-2
                  "12 janvier 2020", "hier", "tomorrow", "14:05", "sept 2015", "12 Ocak 2020", "in 3 weeks", "1 day ago 2 PM"]
 
 
+VALUE_POOL = {
+    "RELATIVE_BASE": [[1957, 10, 4, 0, 0, 0, 0], [2020, 2, 29, 12, 0, 0, 0], [2000, 1, 1, 8, 30, 0, 0], [2031, 7, 31, 23, 59, 0, 0]],
+    "SKIP_TOKENS": [[], ["de"], ["t"], ["foo", "bar"], ["de", "t"]], "NORMALIZE": [True, False],
+    "DATE_ORDER": ["DMY", "MDY", "YMD"], "PREFER_LOCALE_DATE_ORDER": [True, False],
+    "PREFER_DATES_FROM": ["past", "future", "current_period"], "PREFER_DAY_OF_MONTH": ["first", "last", "current"],
+    "PREFER_MONTH_OF_YEAR": ["first", "last", "current"], "CACHE_SIZE_LIMIT": [1, 2, 1000],
+    "DEFAULT_LANGUAGES": [["fr"], ["tl", "en"], ["fr", "en"], ["en", "fr"]], "TIMEZONE": ["UTC+3", "UTC", "local", "Asia/Tokyo"],
+    "TO_TIMEZONE": ["EST", "UTC", "Asia/Kolkata"], "RETURN_AS_TIMEZONE_AWARE": [True, False], "STRICT_PARSING": [True, False],
+    "REQUIRE_PARTS": [["year"], ["day"], ["month", "year"]], "RETURN_TIME_AS_PERIOD": [True, False],
+    "PARSERS": [["absolute-time", "relative-time"], ["absolute-time"], ["relative-time", "timestamp"]],
+}
+
+
+def _revalue(draw, sd):
+    """sd with the value of one of its own keys replaced by another valid value (None if sd has no key to change)"""
+    keys = [k for k in (sd or {}) if k in VALUE_POOL]
+    if not keys:
+        return None
+    key = draw(st.sampled_from(sorted(keys)))
+    others = [v for v in VALUE_POOL[key] if v != sd[key]]
+    out = copy.deepcopy(sd)
+    out[key] = copy.deepcopy(draw(st.sampled_from(others)))
+    return out
+
+
 def _variant(draw, sd):
-    """a settings dict equal to sd, or differing from it in exactly one key, or unrelated"""
+    """a settings dict equal to sd, or differing from it in exactly one key (added, removed or given another value), or
+    unrelated"""
     k = draw(st.integers(0, 7))
+    if k in (2, 5) and sd:
+        r = _revalue(draw, sd)
+        if r is not None:
+            return r
     if k == 7 and sd:
         # the same dict with one list value in another order
         base = copy.deepcopy(sd)
@@ -469,6 +499,24 @@ def triples(draw):
         if draw(st.booleans()):
             h.append(ns_call())
         h.append(copy.deepcopy(first))
+        return {"history": h}
+    if sc in (9, 10):
+        # two (or three) live parsers for the same languages whose settings differ in the value of exactly one key, used in
+        # turn: objects that are shared between "almost equal" configurations (the Settings registry, per-settings caches)
+        # show up as one parser answering with the other's configuration
+        Sa = copy.deepcopy(draw(st.sampled_from([x for x in SETTINGS if x])))
+        Sb = _revalue(draw, Sa)
+        L = draw(st.sampled_from(LANGS[1:]))
+        probe_strs = ["yesterday", "2 days ago", "Monday", "March 2015", "14:05", "02-03-2016", "10/11/12", "27 Haziran 1981 de", "t 12 jan 2020",
+                      "12 janvier 2020", "in 3 weeks", "3 Feb 2015 14:05 EST", "2015"]
+        h = [["new_parser", 0, L, None, None, False, Sa]]
+        if draw(st.booleans()):
+            h.append(["use_parser", 0, draw(st.sampled_from(probe_strs)), None])
+        h.append(["new_parser", 1, L, None, None, False, Sb])
+        if draw(st.booleans()):
+            h.append(["new_parser", 2, L, None, None, False, _revalue(draw, Sb)])
+        for _ in range(draw(st.integers(2, 4))):
+            h.append(["use_parser", draw(st.sampled_from([0, 0, 1, 2])), draw(st.sampled_from(probe_strs)), None])
         return {"history": h}
     if sc in (13, 14):
         # one locale, several calls whose settings agree in some of the keys the per-locale memos are built from (NORMALIZE picks
@@ -556,7 +604,7 @@ def triples(draw):
             h.append(["parse", draw(st.sampled_from(STRINGS)), None, draw(st.sampled_from(LANGS[1:])), None, None, S2])
         h.append(["use_parser", 0, probe, None])
         return {"history": h}
-    if draw(st.integers(0, 9)) == 1:
+    if sc in (11, 12) or draw(st.integers(0, 9)) == 1:
         # search_dates as the repeated call: language detection among several candidates keeps per-locale memos that are built
         # by whichever call comes first, so the same search is made twice around an interfering call
         langs = draw(st.sampled_from([None, ["fr", "en"], ["de", "fr"], ["en", "fr", "de"], ["fr"], ["tr", "en"]]))
